@@ -304,6 +304,31 @@ def _is_np(d):
     return d is not None and d.startswith(("np.", "numpy."))
 
 
+def floor_(x):
+    return F.fn("floor", x)
+
+
+def ceil_(x):
+    """ceil(x) = -floor(-x): one canonical form for np.ceil, math.ceil and `-(-a // b)`"""
+    return -F.fn("floor", -x)
+
+
+def integer_valued(v):
+    """an integer combination of floor(..) / round(..) values and integer constants"""
+    if v is None or is_unknown(v) or isinstance(v, (tuple, DictValue)):
+        return False
+    if not v.d.is_const() or v.d.const_value() != 1:
+        return False
+    for m, c in v.n.t.items():
+        if c.denominator != 1:
+            return False
+        for a, _e in m:
+            d = F.atom_desc(a)
+            if not (d[0] == "fn" and (d[1] == "floor" or d[1].startswith("round:") or d[1] in ("int", "rows", "dim"))):
+                return False
+    return True
+
+
 STR_METHODS = frozenset("startswith endswith lower upper strip lstrip rstrip find rfind index rindex count replace title capitalize casefold swapcase "
                         "isdigit isalpha isalnum islower isupper zfill removeprefix removesuffix split rsplit partition rpartition format join center "
                         "ljust rjust".split())
@@ -427,6 +452,15 @@ def array_call(node, ev):
                 return NotImplemented
             sh = F.fn("tuple", *[need(x) for x in sh])
         return F.fn("zeros" if d.endswith("zeros") else "empty", need(sh))
+    if (d in ("np.take", "numpy.take") and len(node.args) >= 2) or (attr == "take" and not _is_np(d) and len(node.args) >= 1):
+        # np.take(X, i, axis=0) / X.take(i, axis=0): X[i]
+        rest = node.args[2:] if _is_np(d) else node.args[1:]
+        ax = kw.get("axis", rest[0] if rest else None)
+        axv = ev.ev(ax) if ax is not None else None
+        if axv is not None and not is_unknown(axv) and not isinstance(axv, (tuple, DictValue)) and axv.is_zero() and not (set(kw) - {"axis"}):
+            xs = node.args[0] if _is_np(d) else node.func.value
+            ix = node.args[1] if _is_np(d) else node.args[0]
+            return ev.ev(ast.copy_location(ast.Subscript(value=xs, slice=ix, ctx=ast.Load()), node))
     if d in ("np.full", "numpy.full") and len(node.args) + ("fill_value" in kw) >= 2 and (node.args or "shape" in kw):
         # np.full(shape, v): zeros of that shape plus v
         sh = ev.ev(node.args[0] if node.args else kw["shape"])
@@ -462,7 +496,13 @@ def array_call(node, ev):
         return F.fn("hstack", need(a), need(b))
     if d in ("np.ceil", "numpy.ceil", "math.ceil", "ceil") and len(node.args) == 1:
         a = ev.ev(node.args[0])
-        return NotImplemented if is_unknown(a) or isinstance(a, tuple) else F.fn("ceil", need(a))
+        return NotImplemented if is_unknown(a) or isinstance(a, tuple) else ceil_(need(a))
+    if d in ("np.floor", "numpy.floor", "math.floor", "floor") and len(node.args) == 1:
+        a = ev.ev(node.args[0])
+        return NotImplemented if is_unknown(a) or isinstance(a, tuple) else floor_(need(a))
+    if d in ("np.round", "numpy.round", "np.rint", "np.around", "round", "np.trunc", "math.trunc", "np.fix") and len(node.args) == 1 and not kw:
+        a = ev.ev(node.args[0])               # another rounding rule: a function of its own (it is neither floor nor ceil)
+        return NotImplemented if is_unknown(a) or isinstance(a, tuple) else F.fn("round:" + d.split(".")[-1], need(a))
     if d == "bool" and len(node.args) == 1 and not kw:
         t = truth(ev.ev(node.args[0]))
         return NotImplemented if t is None else (TRUE if t else FALSE)
@@ -472,8 +512,7 @@ def array_call(node, ev):
             return NotImplemented
         if sym_of(a) in ("True", "False"):
             return F.const(1 if sym_of(a) == "True" else 0)
-        u = unfn(a)
-        return a if (u and u[0] == "ceil") else F.fn("int", need(a))
+        return a if integer_valued(a) else F.fn("int", need(a))
     # index vectors of a mask
     if attr == "nonzero" and not _is_np(d) and not node.args:
         m = ev.ev(node.func.value)
@@ -779,6 +818,7 @@ class Ev3(AutoEvaluator):
         self.arrays = set()   # symbols the rule declares to be numeric arrays (never None; their elements are numbers)
         self.modfuncs = frozenset()   # names of the module-level functions of the module under evaluation
         self.parent = None    # the evaluator of the caller (an inlined callee asks it about the array objects it was handed)
+        self.counters = set() # symbols bound as loop counters (integers): `A[k]` with such an index is a view of A
         self._cur_stmt = None
 
     def bname(self, name):
@@ -856,6 +896,13 @@ class Ev3(AutoEvaluator):
             conv = {"True": F.const(1), "False": F.const(0)}
             if sym_of(a) in conv or sym_of(b) in conv:
                 return arith(node.op, conv.get(sym_of(a), a), conv.get(sym_of(b), b))
+        if isinstance(node, ast.BinOp) and isinstance(node.op, ast.FloorDiv):
+            a, b = self.ev(node.left), self.ev(node.right)
+            if not is_unknown(a) and not is_unknown(b) and not isinstance(a, (tuple, DictValue)) and not isinstance(b, (tuple, DictValue)) and not need(b).is_zero():
+                q = need(a) / need(b)
+                if q.is_const():
+                    return F.const(q.const_value().__floor__())
+                return floor_(q)                       # a // b
         if isinstance(node, ast.BinOp) and isinstance(node.op, ast.Mod):
             fmt = str_of(self.ev(node.left))
             if fmt is not None:
@@ -975,7 +1022,7 @@ class Ev3(AutoEvaluator):
             return {ast.Lt: x < y, ast.LtE: x <= y, ast.Gt: x > y, ast.GtE: x >= y}.get(type(op))
         return None
 
-    _NUMERIC = ("abs", "zeros", "empty", "vstack", "hstack", "lfilt", "rows", "dim", "ceil", "int", "sel", "where", "interp")
+    _NUMERIC = ("abs", "zeros", "empty", "vstack", "hstack", "lfilt", "rows", "dim", "floor", "int", "sel", "where", "interp")
 
     def not_none(self, v, depth=0):
         """the value is certainly not None: a number, a string, a display, a function, an array that is filled by stores, the result of arithmetic
@@ -1209,6 +1256,7 @@ class Ev3(AutoEvaluator):
                 # `k = a; while k < n: ...; k += 1`: evaluated once for a generic iteration, like `for k in range(a, n)`
                 self.ev(st.test)
                 self.env[ctr] = F.sym(ctr)
+                self.counters.add(ctr)
                 self.run(st.body)
                 return
         if isinstance(st, ast.Global):
@@ -1319,6 +1367,7 @@ class Ev3(AutoEvaluator):
         if d == "enumerate" and len(it.args) == 1 and isinstance(t, (ast.Tuple, ast.List)) and len(t.elts) == 2 and isinstance(t.elts[0], ast.Name):
             arr = self.ev(it.args[0])
             k = F.sym(t.elts[0].id)
+            self.counters.add(t.elts[0].id)
             bind(t.elts[0], k)
             if is_unknown(arr) or isinstance(arr, (tuple, DictValue)):
                 bind(t.elts[1], Unknown("loop over an undetermined sequence"))
@@ -1328,11 +1377,13 @@ class Ev3(AutoEvaluator):
             for a in it.args:
                 self.ev(a)
             bind(t, F.sym(t.id))
+            self.counters.add(t.id)
         elif d == "zip" and isinstance(t, (ast.Tuple, ast.List)) and len(t.elts) == len(it.args) and not it.keywords \
                 and all(isinstance(e, ast.Name) for e in t.elts):
             # for k, x in zip(range(n), X): the elements with one common index - the counter itself when one of the sequences is a range
             cnt = [e.id for e, a in zip(t.elts, it.args) if isinstance(a, ast.Call) and dotted(a.func) in ("range", "it.count", "itertools.count", "count")]
             k = F.sym(cnt[0]) if cnt else F.sym("<k:%s>" % t.elts[0].id)
+            self.counters.update(cnt)
             for e, a in zip(t.elts, it.args):
                 if isinstance(a, ast.Call) and dotted(a.func) in ("range", "it.count", "itertools.count", "count"):
                     for x in a.args:
@@ -1487,12 +1538,49 @@ class Ev3(AutoEvaluator):
                 return False
         return True
 
+    def index_kind(self, sl):
+        """'view' when `A[sl]` is basic indexing (slices, `...`, new axes, integers: constants and loop counters) - a view of A, so that writing through it
+        (out=, .fill, np.copyto) writes A; 'copy' when an index is a mask / an index vector / a list (advanced indexing gives a copy: the write is lost);
+        None when the evaluator cannot tell"""
+        kind = "view"
+        for e in (sl.elts if isinstance(sl, ast.Tuple) else [sl]):
+            if isinstance(e, ast.Slice) or (isinstance(e, ast.Constant) and (e.value is None or e.value is Ellipsis or (isinstance(e.value, int) and not isinstance(e.value, bool)))) \
+                    or (isinstance(e, ast.Attribute) and dotted(e) in ("np.newaxis", "numpy.newaxis")):
+                continue
+            if isinstance(e, (ast.List, ast.ListComp)):
+                return "copy"
+            v = self.ev(e)
+            if isinstance(v, tuple):
+                return "copy"
+            if is_unknown(v) or isinstance(v, DictValue):
+                kind = None
+                continue
+            if v.is_const() and v.const_value().denominator == 1:
+                continue
+            n = sym_of(v)
+            if n is not None and (n in self.counters or n.startswith("<k:") or n == "<task>"):
+                continue
+            u = unfn(v)
+            if u and (u[0].startswith(("cmp:", "mask:")) or u[0] in ("invert", "not", "where", "sel") or u[0].split(".")[-1] in
+                      ("logical_not", "logical_and", "logical_or", "nonzero", "flatnonzero", "argsort", "isnan", "isfinite", "ix_", "arange")):
+                return "copy"
+            if n is None and u is None:
+                continue                  # arithmetic on integers (k + 1)
+            kind = None
+        return kind
+
     def _store_full(self, tgt, v, st, alias=None):
         """the effect `tgt[...] = v` of a call that writes its result into an existing array (`out=tgt`, `tgt.fill(v)`, `np.copyto(tgt, v)`) or of an
         in-place operator on a local that denotes an array object.  What the target denotes decides where the store goes: an array object of this
         evaluation, a row / entry of one (a view), or a local that holds a value (then every local bound to the very same value follows)."""
         if isinstance(v, PyTuple):
             v = tuple(v)
+        if isinstance(tgt, ast.Subscript):
+            k = self.index_kind(tgt.slice)
+            if k == "copy":
+                return                    # A[mask] is a copy: what is written into it never reaches A
+            if k is None:
+                v = Unknown("written through an index that may be a view or a copy")
         if isinstance(tgt, (ast.Subscript, ast.Attribute)):
             t = copy.copy(tgt)
             t.ctx = ast.Store()
@@ -1535,8 +1623,8 @@ class Ev3(AutoEvaluator):
             self.cells.append((view[0], view[1], v, st))
             return
         uc = unfn(cur) if (cur is not None and not is_unknown(cur) and not isinstance(cur, (tuple, DictValue))) else None
-        if uc and uc[0] in ("empty", "zeros") and plainv and not isinstance(uc[1][0], str) and not depends(v, "<never>") and (unfn(v) or ("",))[0] not in ("empty", "zeros"):
-            v = F.fn("zeros", uc[1][0]) + v          # a freshly allocated array filled as a whole: its shape stays known
+        if uc and uc[0] in ("empty", "zeros") and plainv and not isinstance(uc[1][0], str) and v.is_const():
+            v = F.fn("zeros", uc[1][0]) + v          # a freshly allocated array filled with one number: its shape stays known
         self.env[n] = v
         if cur is not None:
             for m, val in list(self.env.items()):
